@@ -396,6 +396,15 @@ def mkStep (e : Err) (ex nw : Option Text) (R : List PluginObs) : StepObs :=
 def rmexeObs (n : Text) (p : PluginObs) : PluginObs :=
   if p.name == n then ⟨p.name, delBy FileObs.name (binName n) p.files, none⟩ else p
 
+/-- the directory's own executable names a private interpreter -/
+def exeInterp (p : PluginObs) : Bool :=
+  ((findBy FileObs.name (binName p.name) p.files).map (·.interp)) == some true
+
+/-- a directory after the private interpreters of its files were removed: the files are what
+they were; it stops answering iff its executable used one -/
+def rminterpObs (n : Text) (p : PluginObs) : PluginObs :=
+  if p.name == n then { p with version := if exeInterp p then none else p.version } else p
+
 /-- one operation, computed from the observed root as it is after the source chmod -/
 def specStep1 (R : List PluginObs) (op : Op) : StepObs :=
   match op.kind with
@@ -416,6 +425,7 @@ def specStep1 (R : List PluginObs) (op : Op) : StepObs :=
     else mkStep .ok none none
       (putBy PluginObs.name (pobs ⟨op.name, topFiles op.entries⟩) (delBy PluginObs.name op.name R))
   | .rmexe => mkStep .ok none none (R.map (rmexeObs op.name))
+  | .rminterp => mkStep .ok none none (R.map (rminterpObs op.name))
 
 /-- one operation, computed from the observed root only -/
 def specStep (R : List PluginObs) (op : Op) : StepObs := specStep1 (touchR R op) op
@@ -542,7 +552,7 @@ theorem observe_chmodIn (X fn : Text) (st : State) (h : fn ≠ binName X) :
     apply List.map_congr_left
     intro f _
     simp only [Function.comp, fobs]
-    by_cases hf : (f.name == fn) = true <;> simp [hf]
+    by_cases hf : (f.name == fn) = true <;> simp [hf, File.usesInterp]
   · simp only [hp]; rfl
 
 theorem srcChmod_ne {op : Op} {loc : Located} {X fn : Text} (hl : specLocate op = some loc)
@@ -589,6 +599,63 @@ theorem touchSt_noninstall (st : State) (op : Op) (h : op.kind ≠ .install) : t
   | some l =>
     have : (op.kind == OpKind.install) = false := beq_eq_false_iff_ne.2 h
     simp [this]
+
+theorem fobs_breakInterp (f : File) : fobs (breakInterp f) = fobs f := by
+  unfold breakInterp
+  cases hs : f.script with
+  | none => rfl
+  | some sc =>
+    by_cases hi : sc.interp = true
+    · simp [hi, fobs, File.usesInterp, hs]
+    · simp [hi]
+
+theorem metadata_breakInterp (n : Text) (f : File) :
+    metadata n (breakInterp f) = if f.usesInterp then none else metadata n f := by
+  unfold breakInterp File.usesInterp
+  cases hs : f.script with
+  | none => simp
+  | some sc =>
+    by_cases hi : sc.interp = true
+    · simp [hi, metadata]
+    · simp [hi]
+
+theorem pobs_rminterp (n : Text) (p : Plugin) :
+    pobs (if p.name == n then { p with files := p.files.map breakInterp } else p) =
+      rminterpObs n (pobs p) := by
+  unfold rminterpObs
+  by_cases h : (p.name == n) = true
+  · simp only [h, if_true, pobs_name]
+    have hfiles : (p.files.map breakInterp).map fobs = p.files.map fobs := by
+      simp only [List.map_map]
+      apply List.map_congr_left
+      intro f _
+      exact fobs_breakInterp f
+    have hfind : findBy File.name (binName p.name) (p.files.map breakInterp) =
+        (findBy File.name (binName p.name) p.files).map breakInterp :=
+      findBy_map File.name File.name breakInterp (by
+        intro a; unfold breakInterp
+        cases a.script with
+        | none => rfl
+        | some sc => by_cases hi : sc.interp = true <;> simp [hi]) _ _
+    have hex : exeInterp (pobs p) =
+        (((findBy File.name (binName p.name) p.files).map File.usesInterp) == some true) := by
+      unfold exeInterp
+      simp only [pobs]
+      rw [findBy_map File.name FileObs.name fobs fobs_name]
+      cases findBy File.name (binName p.name) p.files <;> simp [fobs]
+    rw [hex]
+    simp only [pobs, hfiles]
+    congr 1
+    simp only [answer]
+    split
+    · simp
+    · rw [hfind]
+      cases hf : findBy File.name (binName p.name) p.files with
+      | none => simp
+      | some g =>
+        simp only [Option.map_some, Option.bind_some, metadata_breakInterp]
+        cases g.usesInterp <;> simp
+  · simp only [h, pobs_name]; rfl
 
 /-- Install on the touched root = the observable-level step on the touched observed root -/
 theorem install1_eq_spec (st : State) (op : Op) (hk : op.kind = .install) :
@@ -653,6 +720,19 @@ theorem step_eq_spec (st : State) (op : Op) :
       apply List.map_congr_left
       intro p _
       exact pobs_rmexe op.name p
+    simp only [mkStep, this]
+    simp
+  | rminterp =>
+    rw [touchR_noninstall _ _ (by rw [hk]; exact fun e => by cases e)]
+    unfold stepObs step specStep1
+    simp only [hk, rminterp]
+    have : observe (List.map (fun p => if (p.name == op.name) = true then
+        { p with files := p.files.map breakInterp } else p) st) =
+        (observe st).map (rminterpObs op.name) := by
+      simp only [observe, List.map_map]
+      apply List.map_congr_left
+      intro p _
+      exact pobs_rminterp op.name p
     simp only [mkStep, this]
     simp
 
